@@ -71,6 +71,7 @@ var fnTargets = []*fnTarget{
 	{fn: "app.handleDelegationRewards", name: "proposerReward", leaf: "resp.ProposerReward", inline: []string{"numerator"}},
 	{fn: "app.handleDelegationRewards", name: "delegatorReward", leaf: "delegatorReward", inline: []string{"numerator"}},
 	{fn: "data/rewards.RewardCalculator.Calculate", name: "rewardPerBlock", leaf: "amt"},
+	{fn: "data/rewards.RewardCalculator.getCycleNo", name: "rewardGetCycleNo"},
 	// C09 gas calculator
 	{fn: "storage.gasCalculator.IsEnough", name: "gasIsEnough"},
 	{fn: "storage.gasCalculator.Consume", name: "gasConsume"},
@@ -84,6 +85,8 @@ var fnTargets = []*fnTarget{
 	{fn: "data/balance.Amount.CheckInRange", name: "amountCheckInRange"},
 	{fn: "data/balance.Coin.Plus", name: "coinPlus"},
 	{fn: "data/balance.Coin.Minus", name: "coinMinus"},
+	{fn: "data/balance.Coin.LessThanCoin", name: "coinLessThan"},
+	{fn: "data/balance.Coin.LessThanEqualCoin", name: "coinLessThanEqual"},
 	{fn: "data/balance.Coin.DivideInt64", name: "coinDivideInt64"},
 	{fn: "data/balance.Coin.MultiplyInt64", name: "coinMultiplyInt64"},
 	// C10 / C11 stake
@@ -1280,4 +1283,22 @@ func funcsLean(decls map[string]*ast.FuncDecl, pkgs map[string]*packages.Package
 	}
 	sb.WriteString("end OLP.Gen.Funcs\n")
 	return sb.String()
+}
+
+// surveyFuncs tries the whole-function translation on EVERY function of the loaded packages and
+// lists the ones inside the subset (aid for choosing targets; `olx -survey`).
+func surveyFuncs(decls map[string]*ast.FuncDecl, pkgs map[string]*packages.Package) []string {
+	var out []string
+	for name, fd := range decls {
+		func() {
+			defer func() { recover() }()
+			t := &fnTarget{fn: name, name: "f"}
+			t.translateFn(fd, pkgs[name], map[*types.Func]*fnTarget{})
+			if t.found && !strings.Contains(t.lean, "NOT TRANSLATED") && strings.ContainsAny(t.lean, "+-*/%<>≤≥") && strings.Count(t.lean, "\n") > 4 {
+				out = append(out, fmt.Sprintf("%s (%d lines)", name, strings.Count(t.lean, "\n")))
+			}
+		}()
+	}
+	sort.Strings(out)
+	return out
 }
